@@ -29,6 +29,39 @@ fn main() {
             let path = args.get(2).expect("replay <file>");
             std::process::exit(mc::checks::replay(path));
         }
+        "try" => {
+            // debugging aid: run one model under the default schedule, complete every interrupt, print the trace
+            let yml = std::fs::read_to_string(&args[2]).expect("model file");
+            let vars: serde_json::Value = serde_json::from_str(args.get(3).map(|s| s.as_str()).unwrap_or("{}")).expect("vars json");
+            mc::world::install_panic_hook_quiet();
+            let mut sess = mc::world::Session::new(&mc::world::Cfg::keep());
+            let wf = sess.deploy(&yml);
+            let mut v = vars.clone();
+            v["pid"] = "p1".into();
+            let r = sess.start(&wf.id, &mc::checks::common::vars_of(&v));
+            println!("start => {r:?}");
+            let mut done: std::collections::BTreeSet<String> = Default::default();
+            for _ in 0..400 {
+                let acts = sess.enabled();
+                if let Some(a) = acts.first() {
+                    sess.run(a.seq);
+                    continue;
+                }
+                let open: Vec<acts::Message> = sess.open_irqs(None).into_iter().filter(|m| !done.contains(&m.tid)).collect();
+                let Some(m) = open.first() else { break };
+                done.insert(m.tid.clone());
+                let r = sess.act(args.get(4).map(|s| s.as_str()).unwrap_or("complete"), &m.pid, &m.tid, &acts::Vars::new());
+                println!("client {} {} => {r:?}", m.tid, m.key);
+            }
+            for l in mc::amode::trace_log(&sess.w.trace_snapshot()) {
+                println!("{l}");
+            }
+            if let Some(d) = sess.dump("p1") {
+                for t in &d.tasks {
+                    println!("{t:?}");
+                }
+            }
+        }
         "items" => {
             let id = &args[2];
             let tier = Tier::parse(args.get(3).map(|s| s.as_str()).unwrap_or("quick"));
